@@ -18,6 +18,7 @@ import MosnVerif.Lemmas.CheckedMatch
 import MosnVerif.Lemmas.CheckedH2Parse
 import MosnVerif.Model.CheckedWire
 import MosnVerif.Lemmas.H2Alloc
+import MosnVerif.Lemmas.HpackNoPanic
 /-!
 # C08 — malformed input is contained (property theorems only)
 
@@ -903,9 +904,11 @@ EVERY verdict function of the header-block validation:
 (2) every payload parser, on every header and payload, stays inside the payload, and the parser oracle of the loop model
 never takes its out-of-range branch;
 (3) a frame or a StreamError drained ≥ 9 bytes and never more than were buffered.
-The ONLY oracle left is the verdict (ok / connection error / StreamError) on a COMPLETE header block: HPACK decoding +
-field validation, whose buffer reads are covered by `hpack_varint_no_overread`, `hpack_string_bounded`, `hpack_at_no_oob`
-(hand-written mirror of hpack.go, compared by kinds hpack / hpackx) — not by a regenerated checked-access program. -/
+The ONLY parameter left is the verdict (ok / connection error / StreamError) on a COMPLETE header block.  What that
+verdict reads of the buffer it reads through the HPACK decoder: `hpack_block_no_oob` below (every table access, for every
+block, callback and bounded decoder state) with `hpack_varint_no_overread` / `hpack_string_bounded` (its byte reads) — a
+hand-written mirror of hpack.go (only `Decoder.at` is regenerated), compared with the real decoder by kinds hpack /
+hpackx on exact-capacity buffers; the rest of the verdict (field validation) sees decoded fields only. -/
 theorem http2_no_overread (mx : Nat) (group : List UInt8 → PRes) (b : List UInt8) :
     (∀ off, readHdr b off ≠ .oob ∧ one mx (genOrc group) b off ≠ .oob) ∧
     (∀ off0 sid fuel ms, contLoop mx (genOrc group) b off0 sid fuel ms ≠ .oob) ∧
@@ -921,6 +924,27 @@ theorem http2_no_overread (mx : Nat) (group : List UInt8 → PRes) (b : List UIn
 example : readFrame 16384 (genOrc (fun _ => .ok)) [0,0,4, 8, 0, 0,0,0,1, 0,0,0,0] = .stream 13 := by decide +kernel
 example : readFrame 16384 (genOrc (fun _ => .ok)) [0,0,2, 0, 8, 0,0,0,1, 5,0] = .conn := by decide +kernel
 example : readFrame 16384 (genOrc (fun _ => .ok)) [0,0,2, 0, 8, 0,0,0,1, 1,0] = .frame 11 := by decide +kernel
+
+open MosnVerif.Model.HpackEmit MosnVerif.Lemmas.HpackEmit in
+/-- **hpack_block_no_oob** (the last stage of the HTTP/2 read path): `hpack.Decoder.Write` + `Close` on the header block a
+HEADERS+CONTINUATION group delivers — EVERY block, EVERY emit callback (whatever `readMetaFrame`'s callback keeps and
+whenever it switches emitting off), from EVERY decoder state whose dynamic table is consistent and within 32 bits (what
+`NewDecoder` / SETTINGS establish and every representation preserves) — never indexes the static or the dynamic table out
+of range (`Decoder.at`, regenerated with Go's integer types and checked access: Gen/HpackAt); the indices it is given come
+out of `readVarInt` (< 2^64).  Together with `hpack_varint_no_overread` / `hpack_string_bounded` (the decoder's byte reads)
+this covers what the header-block verdict of `http2_no_overread` reads: the verdict oracle left there decides only
+ok / connection error / StreamError from DECODED fields (field validation, pseudo-header rules) and reads no buffer. -/
+theorem hpack_block_no_oob {σ : Type} (cb : Callback σ) (d : DecE) (st : σ) (block : List UInt8) (hb : Bounded d.base) :
+    d.decodeFullP codePolicy cb st block ≠ .error .panic :=
+  MosnVerif.Lemmas.HpackNoPanic.decodeFullP_no_panic codePolicy cb d st block hb
+
+open MosnVerif.Model.HpackEmit MosnVerif.Lemmas.HpackEmit MosnVerif.Model.HpackTable in
+-- non-vacuity: a fresh decoder is bounded; an indexed field with the maximal 10-byte index (2^63 + 126) is refused, not a panic
+example : Bounded (DecE.new 4096).base := bounded_new 4096 (by decide)
+open MosnVerif.Model.HpackEmit MosnVerif.Model.HpackTable in
+example : (match (DecE.new 4096).decodeFullP codePolicy (fun (_ : Unit) _ => ((), false)) ()
+      [0xff, 0xff, 0xff, 0xff, 0xff, 0xff, 0xff, 0xff, 0xff, 0x7f] with
+    | .error (.dec _) => true | _ => false) = true := by decide +kernel
 
 open MosnVerif.Model.H2Alloc MosnVerif.Lemmas.H2Alloc MosnVerif.Gen.C08H2Alloc in
 /-- **h2_alloc_bounded**: (1) `MFramer.readFrameHeader` / `ReadFrame` allocate NOTHING in front of the payload slice
